@@ -77,6 +77,7 @@ Agrees(e) ==                                            \* C15 (template equatio
 TSetup ==
     /\ IsEvent("Setup")
     /\ setup = [none |-> TRUE]
+    /\ HasField(Ev, "vMin")                        \* a set-up that raised (Ev.out is the exception) is not accepted
     /\ Ev.vMin <= Ev.vJ /\ Ev.vJ < ONE /\ Ev.vJ > Ev.cb - EPSV          \* Jouguet velocity above the sound speed behind
     /\ PROP = "C15" => (Ev.isTemplate => (Near(Ev.vJ, Ev.tvJ, 20) /\ Near(Ev.vMin, IF Ev.tvMin < 10000 THEN 10000 ELSE Ev.tvMin, 1000)))
     /\ setup' = Ev /\ seen' = <<>>
